@@ -175,14 +175,43 @@ def _enclosing_block(root: ast.AST, node: ast.AST):
 
 
 def _first_error_functions(ctx: Ctx) -> List[FuncUnit]:
-    out = []
-    for unit in _run_units(ctx):
+    """Functions that hand out the exception of a failed task: they read Task.exception() themselves, or return what
+    such a function returned (helpers layered on top of each other)."""
+    cached = getattr(ctx, '_first_error_units', None)
+    if cached is not None:
+        return cached
+    out: List[FuncUnit] = []
+    units = _run_units(ctx)
+    for unit in units:
         env = FuncEnv.of(ctx.p, unit)
         for node in env.own_nodes():
             if isinstance(node, ast.Call):
                 if any(t[0] == 'ext' and t[1] in ('asyncio.Task.exception', 'asyncio.Future.exception') for t in env.resolve_call(node)):
                     if unit not in out:
                         out.append(unit)
+    changed = True
+    rounds = 0
+    while changed and rounds < 4:
+        changed = False
+        rounds += 1
+        for unit in units:
+            if unit in out or isinstance(unit.node, ast.Lambda):
+                continue
+            env = FuncEnv.of(ctx.p, unit)
+            from ..cfg import Inst
+            root = Inst(unit, None, None, {})
+            for node in env.own_nodes():
+                if not (isinstance(node, ast.Return) and node.value is not None):
+                    continue
+                for e, i in resolve_all(ctx.p, node.value, root):
+                    c = e
+                    if isinstance(c, ast.Call) and any(t[0] == 'func' and t[1] in out for t in FuncEnv.of(ctx.p, i.unit).resolve_call(c)):
+                        out.append(unit)
+                        changed = True
+                        break
+                if unit in out:
+                    break
+    ctx._first_error_units = out
     return out
 
 
